@@ -112,6 +112,42 @@ theorem c05_no_spurious (K : KaConsts) (hK1 : K.reconnectAdd = 10) (hK2 : K.wdTi
     · rw [if_neg (by omega), if_neg (by omega)]
     · rfl
 
+/-! ### a silent server that still accepts connections -/
+
+theorem kaRun_silent (es : List KaEv) : ∀ (s : KaClock), KaEv.recv ∉ es →
+    (kaRun s es).lastResp = s.lastResp ∧ (kaRun s es).now = s.now + es.count .tick := by
+  induction es with
+  | nil => intro s _; simp [kaRun]
+  | cons e es ih =>
+    intro s hno
+    have hno' : KaEv.recv ∉ es := fun h => hno (List.mem_cons_of_mem _ h)
+    have he : e ≠ .recv := fun h => hno (by rw [h]; exact List.mem_cons_self)
+    have := ih (kaStep s e) hno'
+    unfold kaRun at this ⊢
+    rw [List.foldl_cons]
+    cases e with
+    | recv => exact absurd rfl he
+    | tick => simp only [kaStep] at this ⊢; rw [this.1, this.2]; simp [List.count_cons]; omega
+    | connect => simp only [kaStep] at this ⊢; rw [this.1, this.2]; simp
+    | disconnect => simp only [kaStep] at this ⊢; rw [this.1, this.2]; simp
+    | sent => simp only [kaStep] at this ⊢; rw [this.1, this.2]; simp
+
+/-- **C05.3b (nothing received means restart, whatever else happens)** from the moment of the last received message, any
+    history of seconds passing, new connections, disconnects and own transmissions in which nothing is received leaves
+    the watchdog deciding "restart" once `wdTimeout + 1` seconds have passed - a server that keeps accepting connections
+    without ever answering does not postpone it. -/
+theorem c05_silent_history_restarts (K : KaConsts) (T : Int) (r nc : Nat) (es : List KaEv) (hno : KaEv.recv ∉ es)
+    (hsec : es.count .tick = K.wdTimeout + 1) :
+    watchdog K T (kaRun ⟨r, r⟩ es).now (kaRun ⟨r, r⟩ es).lastResp nc = .restart := by
+  obtain ⟨h1, h2⟩ := kaRun_silent es ⟨r, r⟩ hno
+  rw [h1, h2, hsec]
+  exact c05_watchdog_restart K T r nc
+
+/-- non-vacuity: 61 s with a reconnect every 20 s -/
+example : watchdog Gen.kaConsts 10
+    (kaRun ⟨100, 100⟩ ((List.replicate 20 KaEv.tick ++ [.disconnect, .connect, .sent]) ++ (List.replicate 20 KaEv.tick ++ [.disconnect, .connect, .sent]) ++ List.replicate 21 KaEv.tick)).now
+    (kaRun ⟨100, 100⟩ ((List.replicate 20 KaEv.tick ++ [.disconnect, .connect, .sent]) ++ (List.replicate 20 KaEv.tick ++ [.disconnect, .connect, .sent]) ++ List.replicate 21 KaEv.tick)).lastResp 0 = .restart := by decide
+
 /-! ### constants of the source tree -/
 
 theorem c05_consts : Gen.kaConsts.pingWindow = 5 ∧ Gen.kaConsts.reconnectAdd = 10 ∧
